@@ -411,6 +411,7 @@ func (ex *Exec) runPath(it workItem) (end string, msg string) {
 	ex.depth = 0
 	ex.frame = nil
 	ex.ndSeq, ex.mndSeq, ex.errSeq, ex.clockSeq = 0, 0, 0, 0
+	ex.closedChans = nil
 	ex.cpos = 0
 	ex.ufIdx = map[string]int{}
 	ex.lastClock = nil
